@@ -242,6 +242,84 @@ pub fn c07_regions(input: &str, cfg: &Cfg, well_formed: bool) -> Vec<String> {
                             }
                         }
                     }
+                    if has_directive && j > i + 1 {
+                        // a block with conditional directives: instruction line by instruction line (a source line of
+                        // the block that holds more than comments and directives)
+                        let last = j - 1;
+                        let mut k = i + 1;
+                        while k <= last {
+                            let mut e = k;
+                            while e + 1 <= last && !input[toks[e + 1].start..toks[e + 1].start + toks[e + 1].ws_len].contains('\n') {
+                                e += 1;
+                            }
+                            let group = &toks[k..=e];
+                            let is_dir = |t: &OTok| matches!(t.kind, RawTokenType::ConditionalDirective(_));
+                            let is_pass = |t: &OTok| matches!(t.kind, RawTokenType::ConditionalDirective(_) | RawTokenType::Comment(_) | RawTokenType::CompilerDirective);
+                            if group.iter().any(|t| !is_pass(t)) {
+                                let text = &input[group[0].start + group[0].ws_len..group[group.len() - 1].end];
+                                if !out.contains(text) {
+                                    if !group.iter().any(is_dir) {
+                                        fails.push("c07: an instruction line of an asm block with conditional directives is not reproduced byte for byte".to_string());
+                                    } else {
+                                        // inline conditional directives: which shape?
+                                        let closes_line = is_dir(&group[group.len() - 1]);
+                                        let opens_line = is_dir(&group[0]);
+                                        let simple = |t: &OTok| {
+                                            is_pass(t)
+                                                || matches!(t.kind, RawTokenType::Identifier | RawTokenType::IdentifierOrKeyword(_) | RawTokenType::NumberLiteral(_) | RawTokenType::TextLiteral(_) | RawTokenType::Op(OperatorKind::Dot))
+                                        };
+                                        // tokens between the first and the last directive of the line
+                                        let fd = group.iter().position(is_dir).unwrap();
+                                        let ld = group.iter().rposition(is_dir).unwrap();
+                                        let branches_simple = group[fd..=ld].iter().all(simple);
+                                        // is the conditional block (its opening and closing directive) contained in this line?
+                                        let mut depth = 0i32;
+                                        let mut contained = true;
+                                        for t in group.iter() {
+                                            if let RawTokenType::ConditionalDirective(k) = t.kind {
+                                                use ConditionalDirectiveKind as CDK;
+                                                match k {
+                                                    CDK::If | CDK::Ifdef | CDK::Ifndef | CDK::Ifopt => depth += 1,
+                                                    CDK::Endif | CDK::Ifend => depth -= 1,
+                                                    _ => {
+                                                        if depth == 0 {
+                                                            contained = false;
+                                                        }
+                                                    }
+                                                }
+                                                if depth < 0 {
+                                                    contained = false;
+                                                }
+                                            }
+                                        }
+                                        if depth != 0 {
+                                            contained = false;
+                                        }
+                                        let lone_cr = {
+                                            let b = text.as_bytes();
+                                            (0..b.len()).any(|q| b[q] == b'\r' && b.get(q + 1) != Some(&b'\n'))
+                                        };
+                                        let class = if lone_cr {
+                                            "lone CR line breaks inside the line"
+                                        } else if !contained {
+                                            "the conditional block is not contained in the line"
+                                        } else if closes_line || opens_line {
+                                            "a directive is the first or last token of the line"
+                                        } else if !branches_simple {
+                                            "a branch holds brackets or operators"
+                                        } else {
+                                            "branches of identifiers, numbers and strings, inside the line"
+                                        };
+                                        if std::env::var("VERIF_DEBUG").is_ok() {
+                                            eprintln!("DEBUG c07 group {:?} class {}", text, class);
+                                        }
+                                        fails.push(format!("c07: an asm instruction line with inline conditional directives is not reproduced byte for byte ({})", class));
+                                    }
+                                }
+                            }
+                            k = e + 1;
+                        }
+                    }
                 }
                 i = j;
             }
